@@ -1,5 +1,6 @@
 import NodisVerif.Model.Proto
 import NodisVerif.Model.Block
+import NodisVerif.Model.Gate
 /-
   `pev <event>`: one step of the locking protocol as reported by the implementation's trace hook.
   Keys travel as "k" ++ lowercase hex (order-preserving), transactions and records as numbers.
@@ -64,6 +65,29 @@ def blockOp (s : Block.BState) (toks : List String) : Block.BState × String :=
   | none => (s, "bad-op")
   | some e =>
     match Block.stepLoose s e with
+    | some s' => (s', "ok")
+    | none => (s, "rejected")
+end NodisVerif.Driver
+
+namespace NodisVerif.Driver
+/-- `gev <event>`: one step of the EXEC gate as reported by the implementation's trace hook -/
+def parseGev : List String → Option Gate.Ev
+  | ["serve", g] => g.toNat?.map .serve
+  | ["gin", g, "x"] => g.toNat?.map fun g => .gin g .x
+  | ["gin", g, "s"] => g.toNat?.map fun g => .gin g .s
+  | ["gout", g] => g.toNat?.map .gout
+  | ["txb", g, t] => do some (.txb (← g.toNat?) (← t.toNat?))
+  | ["txe", g, t] => do some (.txe (← g.toNat?) (← t.toNat?))
+  | ["sig", g] => g.toNat?.map .sig
+  | ["chk", g] => g.toNat?.map .chk
+  | ["run", g] => g.toNat?.map .run
+  | _ => none
+
+def gateOp (s : Gate.GState) (toks : List String) : Gate.GState × String :=
+  match parseGev toks with
+  | none => (s, "bad-op")
+  | some e =>
+    match Gate.step s e with
     | some s' => (s', "ok")
     | none => (s, "rejected")
 end NodisVerif.Driver
